@@ -259,3 +259,64 @@ Proof.
     change (config_valid c X) with (config_valid c (with_challenger x p)) end.
   rewrite Hcv. cbn [negb]. reflexivity.
 Qed.
+
+(* ------------------------------------------------------------------------------------ *)
+(* the role is all that matters about the signer                                          *)
+(* ------------------------------------------------------------------------------------ *)
+Lemma gov_or_proposer c s b x a :
+  configs s !! b = Some x → is_gov c a ∨ is_proposer s b a → gov_or c (c_proposer x) a = true.
+Proof.
+  intros Hx [H|(x' & Hx' & H)]; apply gov_or_intro; [by left|right]. rewrite Hx in Hx'. by injection Hx' as <-.
+Qed.
+Lemma gov_or_challenger c s b x a :
+  configs s !! b = Some x → is_gov c a ∨ is_challenger s b a → gov_or c (c_challenger x) a = true.
+Proof.
+  intros Hx [H|(x' & Hx' & H)]; apply gov_or_intro; [by left|right]. rewrite Hx in Hx'. by injection Hx' as <-.
+Qed.
+Lemma delete_guard c s b x a :
+  configs s !! b = Some x → is_gov c a ∨ is_proposer s b a ∨ is_challenger s b a →
+  bool_decide (gov c = a) || bool_decide (c_proposer x = a) || bool_decide (c_challenger x = a) = true.
+Proof.
+  intros Hx [H|[(x' & Hx' & H)|(x' & Hx' & H)]].
+  - rewrite (bool_decide_eq_true_2 _ H). reflexivity.
+  - rewrite Hx in Hx'. injection Hx' as <-. rewrite (bool_decide_eq_true_2 _ H). by rewrite orb_true_r.
+  - rewrite Hx in Hx'. injection Hx' as <-. rewrite (bool_decide_eq_true_2 _ H). by rewrite orb_true_r.
+Qed.
+
+(* For a permissioned message, two valid signers that the table both allows get exactly the
+   same treatment: same verdict, same successor state, same response. *)
+Lemma c12_l1_role_suffices c e s m a a' :
+  l1_permissioned m = true → valid_addr c a = true → valid_addr c a' = true →
+  allowed_l1 c s m a → allowed_l1 c s m a' →
+  handle c e s (l1_with_signer m a) = handle c e s (l1_with_signer m a').
+Proof.
+  intros Hp Ha Ha' Hal Hal'. destruct m; try discriminate Hp; cbn [l1_with_signer handle allowed_l1] in *.
+  - (* propose: the proposer is unique *)
+    destruct Hal as (x & Hx & <-), Hal' as (x' & Hx' & <-). rewrite Hx in Hx'. by injection Hx' as <-.
+  - unfold delete_output. rewrite Ha, Ha'. cbn [negb].
+    destruct (b =? 0)%N; [done|]. destruct (idx =? 0)%N; [done|].
+    destruct (configs s !! b) as [x|] eqn:Hx; cbn [mbind option_bind]; [|done].
+    by rewrite (delete_guard c s b x a Hx Hal), (delete_guard c s b x a' Hx Hal').
+  - unfold update_proposer. rewrite Ha, Ha'. cbn [negb].
+    destruct (b =? 0)%N; [done|]. destruct (valid_addr c p); cbn [negb]; [|done].
+    destruct (configs s !! b) as [x|] eqn:Hx; cbn [mbind option_bind]; [|done].
+    by rewrite (gov_or_proposer c s b x a Hx Hal), (gov_or_proposer c s b x a' Hx Hal').
+  - unfold update_challenger. rewrite Ha, Ha'. cbn [negb].
+    destruct (b =? 0)%N; [done|]. destruct (valid_addr c p); cbn [negb]; [|done].
+    destruct (configs s !! b) as [x|] eqn:Hx; cbn [mbind option_bind]; [|done].
+    by rewrite (gov_or_challenger c s b x a Hx Hal), (gov_or_challenger c s b x a' Hx Hal').
+  - unfold update_batch_info. rewrite Ha, Ha'. cbn [negb].
+    destruct (b =? 0)%N; [done|]. destruct (_ || _); [done|].
+    destruct (configs s !! b) as [x|] eqn:Hx; cbn [mbind option_bind]; [|done].
+    by rewrite (gov_or_proposer c s b x a Hx Hal), (gov_or_proposer c s b x a' Hx Hal').
+  - unfold update_oracle. rewrite Ha, Ha'. cbn [negb].
+    destruct (b =? 0)%N; [done|].
+    destruct (configs s !! b) as [x|] eqn:Hx; cbn [mbind option_bind]; [|done].
+    by rewrite (gov_or_proposer c s b x a Hx Hal), (gov_or_proposer c s b x a' Hx Hal').
+  - unfold update_metadata. rewrite Ha, Ha'. cbn [negb].
+    destruct (b =? 0)%N; [done|]. destruct (max_metadata <? _)%N; [done|].
+    destruct (configs s !! b) as [x|] eqn:Hx; cbn [mbind option_bind]; [|done].
+    by rewrite (gov_or_proposer c s b x a Hx Hal), (gov_or_proposer c s b x a' Hx Hal').
+  - unfold L1.update_params. rewrite Ha, Ha'. cbn [negb]. destruct (coins_valid fee); cbn [negb]; [|done].
+    unfold is_gov in *. by rewrite !bool_decide_eq_true_2.
+Qed.
